@@ -57,7 +57,11 @@ func RunRating(env *Env, prefix, in, out string) error {
 	cli := NewDiamClient(fmt.Sprintf("127.0.0.1:%d", env.RfPort), env.Pem, env.Key, "SUA")
 	defer cli.Close()
 	supi := "imsi-" + prefix + "1"
+	var askRg func(cli *DiamClient, supi string, rg uint32, sub string, consumed, quota uint64, wait time.Duration) map[string]any
 	askAs := func(cli *DiamClient, supi string, sub string, consumed, quota uint64) map[string]any {
+		return askRg(cli, supi, 1, sub, consumed, quota, 1000*time.Millisecond)
+	}
+	askRg = func(cli *DiamClient, supi string, rg uint32, sub string, consumed, quota uint64, wait time.Duration) map[string]any {
 		ans, why := cli.Exchange(charging_code.ServiceUsageMessage, charging_code.Re_interface,
 			func(realm, host datatype.DiameterIdentity) any {
 				return &charging_datatype.ServiceUsageRequest{
@@ -67,11 +71,11 @@ func RunRating(env *Env, prefix, in, out string) error {
 						SubscriptionIdType: charging_datatype.END_USER_IMSI, SubscriptionIdData: datatype.UTF8String(supi[5:]),
 					},
 					ServiceRating: &charging_datatype.ServiceRating{
-						ServiceIdentifier: 1, RequestSubType: subNum[sub],
+						ServiceIdentifier: datatype.Unsigned32(rg), RequestSubType: subNum[sub],
 						ConsumedUnits: datatype.Unsigned32(consumed), MonetaryQuota: datatype.Unsigned32(quota),
 					},
 				}
-			}, 1000*time.Millisecond)
+			}, wait)
 		res := map[string]any{"got": ans != nil, "why": why, "price": []int{}, "allowed": []int{}}
 		if ans != nil {
 			if v, ok := avpU64(avpPath(ans, "Service-Rating", "Price")); ok {
@@ -133,12 +137,27 @@ func RunRating(env *Env, prefix, in, out string) error {
 			cl.Close()
 		}
 	}
+	// requests the statement does not cover -- a subscriber without charging data, a rating group the subscriber has no
+	// tariff for -- are part of every real history; they are interleaved here (own connection, short wait: the server
+	// is silent for them) and must not change what requests for known subscribers get
+	cliU := NewDiamClient(fmt.Sprintf("127.0.0.1:%d", env.RfPort), env.Pem, env.Key, "SUA")
+	defer cliU.Close()
 	for i, c := range cases {
 		if len(c.Batch) > 0 {
 			continue
 		}
 		env.ResetState(0)
 		env.PutAccount(supi, 1, "1000", strings.Join(c.Cost, ""))
+		if i%3 != 2 {
+			who, rg := "imsi-"+prefix+"99", uint32(1)
+			if i%3 == 1 {
+				who, rg = supi, 77
+			}
+			nres := askRg(cliU, who, rg, []string{"debit", "reserve", "aoc", "release"}[(i/3)%4], 1, 10, 40*time.Millisecond)
+			b, _ := json.Marshal(map[string]any{"trace": c.ID, "seq": i, "action": "noise", "unknown": []string{"subscriber", "ratinggroup"}[i%3], "got": nres["got"]})
+			_, _ = w.Write(b)
+			_ = w.WriteByte('\n')
+		}
 		res := ask(c.Sub, BigOfLimbs(c.Consumed).Uint64(), BigOfLimbs(c.Quota).Uint64())
 		res["probe"] = ask("debit", 1, 0)
 		// the CHF's own decoding of the tariff, against the same server
